@@ -1,6 +1,6 @@
 (** C04 — load, save, load again: foreign and legacy input is normalised without loss.
     Statements only; proofs live in Proofs/FontRTP.v and Proofs/FontToyP.v. *)
-Require Import Norad.Model.GlifSpec Norad.Model.GlifEncode Norad.Proofs.GlifEncodeP Norad.Proofs.GlifRoundtripP.
+Require Import Norad.Model.GlifSpec Norad.Model.GlifEncode Norad.Proofs.GlifEncodeP Norad.Proofs.GlifRoundtripP Norad.Proofs.GlifFullP.
 Require Import Norad.Model.Base Norad.Model.FontRT Norad.Model.FontToy Norad.Model.FontNum Norad.Model.FontReal
                Norad.Proofs.FontRTP Norad.Proofs.FontToyP Norad.Proofs.FontNumP Norad.Proofs.FontRealP.
 Open Scope N_scope.
@@ -68,24 +68,43 @@ Example C04_fixed_point_example :
   exists t f, save toy_sig 0 toy_font = Ok t /\ load toy_sig t = Ok f /\ font_valid toy_sig f.
 Proof. exact fixed_point_example. Qed.
 
-(** ---------- with the REAL part models (glif codec, font info, groups / kerning maps and validator) plugged in (Model/FontReal.v) ----------
-    The real glif reader is not closed on [wf_glyph] (it returns glyphs with libs, which the proved
-    round trip of C02 does not cover yet), so the real instance of the fixed point is conditional on
-    the loaded font being valid; what the reader does guarantee for every loaded glyph is proved
-    separately ([C04_loaded_glyphs_obey_rules_real], from C12_returned_glyph_rules).
-    Remaining hypotheses: [codecs_ok K], [L1_glif] (see Props/C01.v, C01_roundtrip_real) and
-    [font_valid f] for the loaded font (to be reduced to: its glyphs are lib-free and canonical, once
-    the base parts are closed — C13_load_only_valid, C15_load_returns_only_ok). *)
+(** ---------- with the REAL part models plugged in (Model/FontReal.v) ----------
+    The fixed point for EVERY format-3 tree the real reader loads, assuming of the loaded glyphs only
+    what the real glif reader does not itself guarantee.
+
+    Proved, not assumed: the loaded font info is in the codec's domain and valid
+    (C13_load_only_valid, through [info_real_closed]), its guideline identifiers are distinct
+    ([fi_validate] -> [fi_spec]), the groups passed [validate_groups] (load checks them), every
+    loaded glyph obeys the glyph rules of C12 and has no public.objectLibs (C12_returned_glyph_rules)
+    and is filed under a valid name, and all of norad's own structure (no left-over
+    public.objectLibs, unique default layer first, distinct names / directories / glif files).
+
+    Hypotheses that remain, and why:
+    - [glyph_rt_domain] for every loaded glyph:
+        finite numbers        — str::parse::<f64> accepts inf and NaN, the writer's round trip (C02)
+                                is stated for finite numbers;
+        [libs_valid]          — lib values outside what the plist writer / reader agree on (e.g.
+                                duplicate keys) are not excluded by the glif reader;
+        [libs_plain], note    — the known classes glyph_lib_linebreak / note_blanks (F3): such a
+                                glyph loads and is changed by the next save;
+        [glyph_canon]         — negative zeros, colours beyond 3 decimals and unsorted lib keys are
+                                normalised by the first save (an exact fixed point needs the
+                                normal form; C02's equivalence covers the general case);
+    - [codecs_ok K], [codecs_closed K]: the seven plist-layer file codecs are lawful and their
+      readers closed (L1 plist hypothesis + serde shapes; contents keys are [Name]s, guideline
+      identifiers are writable keys) — satisfiable: [C04_real_codecs_satisfiable];
+    - [L1_glif]: the four library facts of C02_roundtrip. *)
 Theorem C04_fixed_point_real : forall pf ff ff3 fi fh (K : codecs),
-  L1_glif pf ff ff3 fh -> codecs_ok K ->
-  forall o (t : tree (real_sig pf ff ff3 fi fh K)) (f : font (real_sig pf ff ff3 fi fh K)),
-  load (real_sig pf ff ff3 fi fh K) t = Ok f -> font_valid (real_sig pf ff ff3 fi fh K) f ->
+  L1_glif pf ff ff3 fi fh -> codecs_ok K -> codecs_closed K ->
+  forall o (t : tree (real_sig pf ff ff3 fi fh K)) (f : font (real_sig pf ff ff3 fi fh K)) mc m,
+  load (real_sig pf ff ff3 fi fh K) t = Ok f ->
+  t_meta _ t = Some mc -> dec (P_meta (real_sig pf ff ff3 fi fh K)) mc = Some m -> m_version m = 3 ->
+  Forall (fun l => Forall (fun e : str * str * glyph => glyph_rt_domain pf ff3 (snd e)) (l_glyphs l)) (f_layers _ f) ->
   exists t', save (real_sig pf ff ff3 fi fh K) o f = Ok t' /\
              exists f', load (real_sig pf ff ff3 fi fh K) t' = Ok f' /\ font_equiv (real_sig pf ff ff3 fi fh K) f f'.
-Proof.
-  intros pf ff ff3 fi fh K L HB o t f _ Hv.
-  destruct (roundtrip_real pf ff ff3 fi fh K L HB o f Hv) as (t' & H1 & _ & H2). eauto.
-Qed.
+Proof. exact fixed_point_real. Qed.
+Example C04_real_codecs_satisfiable : codecs_ok id_codecs /\ codecs_closed id_codecs.
+Proof. split; [exact id_codecs_ok|exact id_codecs_closed]. Qed.
 (** every glyph of a font loaded through the real glif reader is a parsed glyph — it obeys the
     glyph rules of C12 and holds no public.objectLibs — renamed to its key of contents.plist *)
 Theorem C04_loaded_glyphs_obey_rules_real : forall pf ff ff3 fi fh (K : codecs)
